@@ -93,3 +93,11 @@ META = {
                  "opcodes not listed under functions_under_contract: CALL/TAIL_CALL/APPLY1/RET/DONE (see C05), CALLCC/RESUMECC (C06), FCALL0-4/FCALLN (dispatch to foreign functions), port opcodes READ_CHAR/PEEK_CHAR/WRITE_CHAR/WRITE_STRING, SLOT*/MAKE/ISA/TYPEP (type table), PARAMETER_REF, GLOBAL_REF, CLOSURE_REF, LOCAL_REF/SET, STACK_REF, PUSH, JUMP*, MAKE_PROCEDURE, MAKE_EXCEPTION, FORCE, YIELD",
                  "foreign primitives of sexp.c / eval.c / port.c beyond those listed (planned: substring, subbytes, index->cursor, utf8->string)"],
 }
+
+# byte-level UTF-8 primitives of (chibi io): every fixnum offset is contained (no out-of-bounds read, or an exception)
+from groups import C12 as _c12
+for _prim, _nm, _fn in ((0, "utf8_ref", "sexp_utf8_ref"), (1, "utf8_next", "sexp_utf8_next"), (2, "utf8_prev", "sexp_utf8_prev"), (3, "string_count", "sexp_string_count")):
+    GROUPS.append(dict(_c12.STR, name="io_" + _nm, label="proved", entry="h_utf8_prims", unwind=14,
+                       functions=["lib/chibi/io/port.c:" + _fn],
+                       bound="none for the offsets (all fixnums); the bytevector / string has an enumerated shape (2..9 bytes) because CBMC cannot take symbolic object sizes",
+                       instances=[{"name": "w%d%d%d" % p, "defs": {"W1": p[0], "W2": p[1], "W3": p[2], "PRIM": _prim}} for p in ((1, 0, 0), (2, 1, 0), (3, 4, 1))]))
